@@ -366,6 +366,10 @@ ApplyTF(h, o) ==
             \* does not resolve: tree unchanged, panic or not is free
             ELSE {Res(Ok(Ref(r)), h), Res(Panic, h)}
 
+IndexOf(c, v) == LET hit == {i \in DOMAIN c.e : c.e[i] = v}
+                 IN IF hit = {} THEN -1 ELSE (CHOOSE i \in hit : \A j \in hit : i <= j) - 1
+KeysOf(c, v) == {k \in DOMAIN c.e : c.e[k] = v}
+
 Apply(h, o) ==
   CASE o.op = "NewList" ->
          LET s == StoreAll(h, o.vs, <<>>)
@@ -386,6 +390,11 @@ Apply(h, o) ==
     \* observers and fluent no-ops that recorded executions exercise on large containers
     [] o.op = "Equals" -> {Res(Ok(Bool(DeepEq(h, o.r, o.j))), h)}
     [] o.op = "ForEach" -> {Res(Ok(Ref(o.r)), h)}       \* any ForEach variant (o.i) with a callback that does nothing
+    \* IndexOf / Contains (lists), Contains / KeyOf (objects): first position; any key holding the value, panic if none
+    [] o.op = "IndexOf" -> {Res(Ok(IntV(IndexOf(h[o.r], o.v))), h)}
+    [] o.op = "Contains" -> {Res(Ok(Bool(IF h[o.r].t = "L" THEN IndexOf(h[o.r], o.v) >= 0 ELSE KeysOf(h[o.r], o.v) # {})), h)}
+    [] o.op = "KeyOf" -> IF KeysOf(h[o.r], o.v) = {} THEN {Res(Panic, h)}
+                         ELSE {Res(Ok(V("str", k)), h) : k \in KeysOf(h[o.r], o.v)}
     [] o.op = "NativeCheck" -> {Res(Ok(Bool(TRUE)), h)} \* Native*(r) holds no container at any depth and equals the content
     [] o.op \in {"Clone", "CloneO"} ->
          LET s == CopyVal(h, Ref(o.r), CloneF) IN {Res(Ok(s[2]), s[1])}
@@ -403,9 +412,6 @@ Apply(h, o) ==
 (* Observers (pure functions of the heap).                                 *)
 (***************************************************************************)
 \* IndexOf / Contains use == on the stored value: scalars by kind and value, containers by identity
-IndexOf(c, v) == LET hit == {i \in DOMAIN c.e : c.e[i] = v}
-                 IN IF hit = {} THEN -1 ELSE (CHOOSE i \in hit : \A j \in hit : i <= j) - 1
-KeysOf(c, v) == {k \in DOMAIN c.e : c.e[k] = v}
 
 (***************************************************************************)
 (* Typing.                                                                 *)
